@@ -254,6 +254,15 @@ func CheckFields(input PDU) error { // nolint: gocyclo
 		}
 	}
 
+	// The code-point limit of the sender is not lenient either, so it is checked before
+	// the byte sizes: an event over it is refused whatever else is merely too many bytes.
+	if l := utf8.RuneCountInString(string(input.SenderID())); l > maxIDLength {
+		return EventValidationError{
+			Code:    EventValidationTooLarge,
+			Message: fmt.Sprintf("gomatrixserverlib: user ID is too long, length %d > maximum %d", l, maxIDLength),
+		}
+	}
+
 	_, persistable := lenientByteLimitRoomVersions[input.Version()]
 
 	// Byte size check: if these fail, then be lenient to avoid breaking rooms.
